@@ -9,7 +9,57 @@ fn main() {
     println!("cargo:rerun-if-env-changed=VERIF_REPO");
     let src = fs::read_to_string(&p).expect("s3_trait.rs");
     let flat: String = src.split_whitespace().collect::<Vec<_>>().join(" ");
-    let mut out = String::from("#[async_trait::async_trait]\nimpl s3s::S3 for Recorder {\n");
+    // fillers: for every Output struct a function that sets one member from text (members whose type is a string alias, a
+    // string enum, bool, i32 or i64), so that a replay can make the backend return a chosen member value
+    let dp = PathBuf::from(&repo).join("crates/s3s/src/dto/generated.rs");
+    println!("cargo:rerun-if-changed={}", dp.display());
+    let dsrc = fs::read_to_string(&dp).expect("dto/generated.rs");
+    let mut alias = std::collections::HashMap::new();
+    let mut str_enum = std::collections::HashSet::new();
+    for l in dsrc.lines() {
+        if let Some(r) = l.strip_prefix("pub type ") {
+            if let Some((a, b)) = r.trim_end_matches(';').split_once(" = ") { alias.insert(a.trim().to_owned(), b.trim().to_owned()); }
+        }
+        if let Some(r) = l.strip_prefix("pub struct ") {
+            if let Some(n) = r.strip_suffix("(Cow<'static, str>);") { str_enum.insert(n.trim().to_owned()); }
+        }
+    }
+    let resolve = |t: &str| { let mut t = t.to_owned(); while let Some(b) = alias.get(&t) { t = b.clone(); } t };
+    let mut fillers = String::new();
+    let mut cur: Option<String> = None;
+    let mut arms = String::new();
+    for l in dsrc.lines() {
+        if let Some(r) = l.strip_prefix("pub struct ") {
+            if let Some(n) = r.strip_suffix(" {") { if n.ends_with("Output") { cur = Some(n.to_owned()); arms.clear(); } }
+            if let Some(n) = r.strip_suffix(" {}") { if n.ends_with("Output") {
+                fillers.push_str(&format!("pub fn fill_{n}(_out: &mut s3s::dto::{n}, _field: &str, _value: &str) -> bool {{ false }}\n"));
+            } }
+            continue;
+        }
+        if l == "}" {
+            if let Some(n) = cur.take() {
+                fillers.push_str(&format!("#[allow(unused_variables, clippy::all)]\npub fn fill_{n}(out: &mut s3s::dto::{n}, field: &str, value: &str) -> bool {{\n    match field {{\n{arms}        _ => false,\n    }}\n}}\n"));
+            }
+            continue;
+        }
+        if cur.is_some() {
+            let t = l.trim();
+            if let Some(r) = t.strip_prefix("pub ") {
+                if let Some((f, ty)) = r.trim_end_matches(',').split_once(": ") {
+                    if let Some(inner) = ty.strip_prefix("Option<").and_then(|x| x.strip_suffix('>')) {
+                        let head = resolve(inner);
+                        let expr = if head == "String" { Some("value.to_owned()".to_owned()) }
+                            else if head == "bool" || head == "i32" || head == "i64" { Some("match value.parse() { Ok(v) => v, Err(_) => return false }".to_owned()) }
+                            else if str_enum.contains(&head) { Some(format!("s3s::dto::{head}::from(value.to_owned())")) }
+                            else { None };
+                        if let Some(e) = expr { arms.push_str(&format!("        \"{f}\" => {{ out.{f} = Some({e}); true }}\n")); }
+                    }
+                }
+            }
+        }
+    }
+    let mut out = fillers;
+    out.push_str("#[async_trait::async_trait]\nimpl s3s::S3 for Recorder {\n");
     let mut rest = flat.as_str();
     let mut n = 0;
     while let Some(i) = rest.find("async fn ") {
@@ -27,13 +77,13 @@ fn main() {
         if name == "put_object" {
             // the upload body is drained so that the replay sees how many bytes the backend gets and how the stream ends
             out.push_str(&format!(
-                "    async fn {name}(&self, req: s3s::S3Request<s3s::dto::{input}>) -> s3s::S3Result<s3s::S3Response<s3s::dto::{output}>> {{\n        self.record(\"{name}\", &req.credentials);\n        let mut n = 0usize; let mut end = String::from(\"clean\");\n        if let Some(mut b) = req.input.body {{ use futures::StreamExt; while let Some(x) = b.next().await {{ match x {{ Ok(bytes) => n += bytes.len(), Err(e) => {{ end = format!(\"error: {{e}}\"); break; }} }} }} }}\n        self.log.lock().unwrap().push(format!(\"put_object.body bytes={{n}} end={{end}} content_length={{:?}}\", req.input.content_length));\n        if end != \"clean\" {{ return Err(s3s::S3Error::with_message(s3s::S3ErrorCode::IncompleteBody, end)); }}\n        self.answer(\"{name}\")\n    }}\n"
+                "    async fn {name}(&self, req: s3s::S3Request<s3s::dto::{input}>) -> s3s::S3Result<s3s::S3Response<s3s::dto::{output}>> {{\n        self.record(\"{name}\", &req.credentials);\n        self.inputs.lock().unwrap().push(format!(\"{{:?}}\", req.input));\n        let mut n = 0usize; let mut end = String::from(\"clean\");\n        if let Some(mut b) = req.input.body {{ use futures::StreamExt; while let Some(x) = b.next().await {{ match x {{ Ok(bytes) => n += bytes.len(), Err(e) => {{ end = format!(\"error: {{e}}\"); break; }} }} }} }}\n        self.log.lock().unwrap().push(format!(\"put_object.body bytes={{n}} end={{end}} content_length={{:?}}\", req.input.content_length));\n        if end != \"clean\" {{ return Err(s3s::S3Error::with_message(s3s::S3ErrorCode::IncompleteBody, end)); }}\n        let mut ans = self.answer::<s3s::dto::{output}>(\"{name}\");\n        if let (Ok(r), Some((f, v))) = (ans.as_mut(), self.fill()) {{ if !fill_{output}(&mut r.output, &f, &v) {{ self.log.lock().unwrap().push(format!(\"fill-failed {{f}}\")); }} }}\n        ans\n    }}\n"
             ));
             n += 1;
             continue;
         }
         out.push_str(&format!(
-            "    async fn {name}(&self, req: s3s::S3Request<s3s::dto::{input}>) -> s3s::S3Result<s3s::S3Response<s3s::dto::{output}>> {{\n        self.record(\"{name}\", &req.credentials);\n        self.answer(\"{name}\")\n    }}\n"
+            "    async fn {name}(&self, req: s3s::S3Request<s3s::dto::{input}>) -> s3s::S3Result<s3s::S3Response<s3s::dto::{output}>> {{\n        self.record(\"{name}\", &req.credentials);\n        self.inputs.lock().unwrap().push(format!(\"{{:?}}\", req.input));\n        let mut ans = self.answer::<s3s::dto::{output}>(\"{name}\");\n        if let (Ok(r), Some((f, v))) = (ans.as_mut(), self.fill()) {{ if !fill_{output}(&mut r.output, &f, &v) {{ self.log.lock().unwrap().push(format!(\"fill-failed {{f}}\")); }} }}\n        ans\n    }}\n"
         ));
         n += 1;
     }
